@@ -180,6 +180,23 @@ static void pointer_shapes(int id, int qr, int from, int qtype)
 			add_shape(p, n, NULL, 0, from, "%s, name = %spointer to a length byte 0x%02x %s the end of the %d-byte message", qr ? "answer" : "query", variant ? "label 'x' + " : "", LB[l], extra ? "one byte before" : "at", n);
 		}
 	}
+	/* half a compression pointer as the very last byte of the datagram, in a name that is reached through a pointer (so that no
+	 * length check on the position follows): its second byte would come from the receive buffer.  The datagram is laid out so that
+	 * a zero byte there completes the pointer to offset 256, where labels spelling the tunnel domain wait (seeded C12-j) */
+	if (!qr) for (int lone = 0xc1; lone <= 0xc1; lone++) {
+		static unsigned char big[400];
+		memset(big, 0, sizeof big);
+		big[0] = id >> 8; big[1] = id; big[2] = 0x01; big[5] = 1;
+		int n = 12, ptrpos = n; n += 2;
+		big[n++] = qtype >> 8; big[n++] = qtype; big[n++] = 0; big[n++] = 1;
+		while (n < 256) big[n++] = 0x2e;
+		{ uint8_t w[100]; int wl = rd_dotted_to_wire(DOM, (int)strlen(DOM), w, sizeof w); memcpy(big + n, w, wl); n += wl; }
+		int target = n;
+		big[n++] = 5; memcpy(big + n, "zabcd", 5); n += 5;
+		big[n++] = lone;
+		big[ptrpos] = 0xc0 | (target >> 8); big[ptrpos + 1] = target;
+		add_shape(big, n, NULL, 0, from, "query, name = pointer to 'zabcd' + the first half (0x%02x) of a pointer as the last byte of the %d-byte message", lone, n);
+	}
 	/* last label reaching exactly to / one past / far past the end */
 	for (int over = 0; over <= 3; over++) {
 		int n = 12;
